@@ -178,7 +178,7 @@ func decodeOnce(t *simrt.Tape, data []byte, group *decode.Group, force bool, pla
 	disk := &decDisk{data: data, planKind: planKind, planAt: planAt, cancel: cancel, eof: -1, logReads: logReads}
 	out := &decOutcome{}
 	sim := simrt.New(t, simrt.PolSequential, 1<<30)
-	sim.WatchdogMs = 6000
+	sim.WatchdogMs = 3000
 	sim.Spawn("decode", false, func() {
 		br := bitio.NewIOBitReadSeeker(disk)
 		v, _, err := decode.Decode(ctx, br, group, decode.Options{IsRoot: true, FillGaps: true, Force: force})
@@ -249,10 +249,15 @@ func (*hdec) Run(rc *core.RunCtx) *core.RunResult {
 		}
 	}
 
-	// choose the fault
-	data := orig
-	planKind, planAt := 0, 0
-	fault := ""
+	// the faults of this run: one family, swept over this (sample, format) pair
+	type decFault struct {
+		descr    string
+		kind     string
+		data     []byte
+		planKind int
+		planAt   int
+	}
+	var faults []decFault
 	mut := func() []byte { return append([]byte(nil), orig...) }
 	pickOff := func() int {
 		if len(orig) == 0 {
@@ -271,97 +276,171 @@ func (*hdec) Run(rc *core.RunCtx) *core.RunResult {
 		}
 		return t.Intn(len(orig))
 	}
-	switch t.Intn(10) {
-	case 0, 1, 2:
-		planKind = 1 + t.Intn(4)
-		if base.calls > 0 {
-			planAt = t.Intn(base.calls)
-		}
-		fault = fmt.Sprintf("%s at disk call %d of %d", []string{"", "transient EIO", "persistent EIO", "early EOF", "cancel"}[planKind], planAt, base.calls)
-		res.Faults[[]string{"", "abort_eio_transient", "abort_eio_persistent", "abort_eof", "abort_cancel"}[planKind]]++
-	case 3, 4:
-		n := 0
-		if len(orig) > 0 {
-			if t.Intn(2) == 0 {
-				n = rc.Idx % (len(orig) + 1) // consecutive run indices sweep small files densely
-			} else {
-				n = t.Intn(len(orig) + 1)
+	planNames := []string{"", "transient EIO", "persistent EIO", "early EOF", "cancel"}
+	planKinds := []string{"", "abort_eio_transient", "abort_eio_persistent", "abort_eof", "abort_cancel"}
+	family := t.Intn(12)
+	switch {
+	case family < 2 && len(orig) > 0:
+		// length-field saturation: every offset the fault-free decode read with a small
+		// width (and the first bytes), overwritten with one boundary value
+		b := boundaryBytes[t.Intn(len(boundaryBytes))]
+		width := 1 + t.Intn(2)*t.Intn(4)
+		seen := map[int]bool{}
+		var offs []int
+		for _, o := range base.lenLike {
+			if int(o) < len(orig) && !seen[int(o)] {
+				seen[int(o)] = true
+				offs = append(offs, int(o))
 			}
 		}
-		data = orig[:n]
-		fault = fmt.Sprintf("truncated to %d of %d bytes", n, len(orig))
-		res.Faults["truncation"]++
-	case 5, 6:
-		data = mut()
-		if len(data) > 0 {
-			k := 1 + t.Intn(3)
-			var where []string
-			for i := 0; i < k; i++ {
-				o := pickOff()
-				b := uint(t.Intn(8))
-				data[o] ^= 1 << b
-				where = append(where, fmt.Sprintf("%d.%d", o, b))
+		for o := 0; o < min(len(orig), 24); o++ {
+			if !seen[o] {
+				seen[o] = true
+				offs = append(offs, o)
 			}
-			fault = "bit-rot at " + strings.Join(where, ",")
 		}
-		res.Faults["bitrot"]++
-	case 7, 8:
-		data = mut()
-		if len(data) > 0 {
-			o := pickOff()
-			b := boundaryBytes[t.Intn(len(boundaryBytes))]
-			n := 1
-			if t.Intn(4) == 0 {
-				n = 1 + t.Intn(4) // saturate a multi-byte length field
+		for _, o := range offs {
+			d := mut()
+			for k := 0; k < width && o+k < len(d); k++ {
+				d[o+k] = b
 			}
-			for i := 0; i < n && o+i < len(data); i++ {
-				data[o+i] = b
-			}
-			fault = fmt.Sprintf("bytes %d..%d overwritten with 0x%02x", o, o+n-1, b)
+			faults = append(faults, decFault{descr: fmt.Sprintf("bytes %d..%d overwritten with 0x%02x", o, o+width-1, b), kind: "byte_overwrite", data: d})
 		}
-		res.Faults["byte_overwrite"]++
+	case family < 4 && len(orig) > 0:
+		// every truncation length (small files) or a stride of them
+		step := 1
+		if len(orig) > 384 {
+			step = len(orig)/256 + 1
+		}
+		for n := t.Intn(step); n < len(orig); n += step {
+			faults = append(faults, decFault{descr: fmt.Sprintf("truncated to %d of %d bytes", n, len(orig)), kind: "truncation", data: orig[:n]})
+		}
+	case family < 6 && base.calls > 0:
+		// abort at every (or every step-th) disk call, one abort kind
+		pk := 1 + t.Intn(4)
+		step := 1
+		if base.calls > 200 {
+			step = base.calls/150 + 1
+		}
+		for k := t.Intn(step); k < base.calls; k += step {
+			faults = append(faults, decFault{descr: fmt.Sprintf("%s at disk call %d of %d", planNames[pk], k, base.calls), kind: planKinds[pk], data: orig, planKind: pk, planAt: k})
+		}
 	default:
-		data = mut()
-		if len(data) > 1 {
-			bs := []int{1, 2, 4, 8, 16, 512}[t.Intn(6)]
-			o := (t.Intn(len(data)) / bs) * bs
-			e := min(o+bs, len(data))
-			switch t.Intn(3) {
-			case 0:
-				for i := o; i < e; i++ {
-					data[i] = 0
+		// a handful of independent random faults
+		for n := 0; n < 12; n++ {
+			var f decFault
+			switch t.Intn(12) {
+			case 0, 1:
+				f.planKind = 1 + t.Intn(4)
+				if base.calls > 0 {
+					f.planAt = t.Intn(base.calls)
 				}
-				fault = fmt.Sprintf("lost write: block %d..%d zeroed", o, e)
-				res.Faults["block_zeroed"]++
-			case 1:
-				data = append(append(append([]byte(nil), data[:e]...), data[o:e]...), data[e:]...)
-				fault = fmt.Sprintf("misdirected write: block %d..%d duplicated", o, e)
-				res.Faults["block_duplicated"]++
+				f.data = orig
+				f.kind = planKinds[f.planKind]
+				f.descr = fmt.Sprintf("%s at disk call %d of %d", planNames[f.planKind], f.planAt, base.calls)
+			case 2, 3:
+				n := 0
+				if len(orig) > 0 {
+					n = t.Intn(len(orig) + 1)
+				}
+				f.data, f.kind = orig[:n], "truncation"
+				f.descr = fmt.Sprintf("truncated to %d of %d bytes", n, len(orig))
+			case 4, 5, 6:
+				f.data, f.kind = mut(), "bitrot"
+				if len(f.data) > 0 {
+					k := 1 + t.Intn(3)
+					var where []string
+					for i := 0; i < k; i++ {
+						o := pickOff()
+						b := uint(t.Intn(8))
+						f.data[o] ^= 1 << b
+						where = append(where, fmt.Sprintf("%d.%d", o, b))
+					}
+					f.descr = "bit-rot at " + strings.Join(where, ",")
+				}
+			case 7, 8:
+				f.data, f.kind = mut(), "byte_overwrite"
+				if len(f.data) > 0 {
+					o := pickOff()
+					b := boundaryBytes[t.Intn(len(boundaryBytes))]
+					w := 1
+					if t.Intn(4) == 0 {
+						w = 1 + t.Intn(4)
+					}
+					for i := 0; i < w && o+i < len(f.data); i++ {
+						f.data[o+i] = b
+					}
+					f.descr = fmt.Sprintf("bytes %d..%d overwritten with 0x%02x", o, o+w-1, b)
+				}
+			case 9:
+				// stale bytes in front of or behind the file (written at the wrong offset, not truncated on rewrite)
+				junk := make([]byte, 1+t.Intn(24))
+				for i := range junk {
+					junk[i] = byte(t.Intn(256))
+				}
+				if t.Intn(2) == 0 {
+					f.data, f.kind = append(append([]byte(nil), junk...), orig...), "junk_prefix"
+					f.descr = fmt.Sprintf("%d stale bytes in front of the file", len(junk))
+				} else {
+					f.data, f.kind = append(mut(), junk...), "junk_suffix"
+					f.descr = fmt.Sprintf("%d stale bytes behind the file", len(junk))
+				}
 			default:
-				data = append(append([]byte(nil), data[:o]...), data[e:]...)
-				fault = fmt.Sprintf("block %d..%d dropped", o, e)
-				res.Faults["block_dropped"]++
+				f.data = mut()
+				if len(f.data) > 1 {
+					bs := []int{1, 2, 4, 8, 16, 512}[t.Intn(6)]
+					o := (t.Intn(len(f.data)) / bs) * bs
+					e := min(o+bs, len(f.data))
+					switch t.Intn(3) {
+					case 0:
+						for i := o; i < e; i++ {
+							f.data[i] = 0
+						}
+						f.descr, f.kind = fmt.Sprintf("lost write: block %d..%d zeroed", o, e), "block_zeroed"
+					case 1:
+						f.data = append(append(append([]byte(nil), f.data[:e]...), f.data[o:e]...), f.data[e:]...)
+						f.descr, f.kind = fmt.Sprintf("misdirected write: block %d..%d duplicated", o, e), "block_duplicated"
+					default:
+						f.data = append(append([]byte(nil), f.data[:o]...), f.data[e:]...)
+						f.descr, f.kind = fmt.Sprintf("block %d..%d dropped", o, e), "block_dropped"
+					}
+				}
+			}
+			if f.kind != "" {
+				faults = append(faults, f)
 			}
 		}
 	}
-	out, _ := decodeOnce(t, data, group, p.force, planKind, planAt, false)
-	res.Steps += out.calls
-	res.Fingerprint = fnv64(fnv64(0, []byte(key+fault)), data[:min(len(data), 64)])
-	res.Nontrivial = true
-	res.Sample = map[string]any{"case": what, "fault": fault, "disk_calls": out.calls, "tree": out.v != nil, "error": errStr(out.err)}
-	if planKind != 0 && out.fired {
-		res.Probes["abort_landed"]++
+	if len(faults) > 300 {
+		faults = faults[:300]
 	}
-	if out.v != nil && out.err != nil {
-		res.Probes["partial_tree_with_error"]++
+	res.Nontrivial = len(faults) > 0
+	res.Fingerprint = fnv64(0, []byte(key))
+	for _, f := range faults {
+		res.Faults[f.kind]++
+		res.Extra["faulted_decodes"]++
+		out, _ := decodeOnce(t, f.data, group, p.force, f.planKind, f.planAt, false)
+		res.Steps += out.calls
+		res.Fingerprint = fnv64(fnv64(res.Fingerprint, []byte(f.descr)), f.data[:min(len(f.data), 32)])
+		if f.planKind != 0 && out.fired {
+			res.Probes["abort_landed"]++
+		}
+		if out.v != nil && out.err != nil {
+			res.Probes["partial_tree_with_error"]++
+		}
+		if out.v != nil && p.force && out.err == nil && f.planKind == 0 {
+			res.Probes["forced_decode_returned_tree"]++
+		}
+		if f.planKind == 4 && errors.Is(out.err, context.Canceled) {
+			res.Probes["cancel_observed"]++
+		}
+		checkOutcome(res, out, f.data, what+", "+f.descr, f.planKind == 1 || f.planKind == 2 || f.planKind == 3, condOf(p, s, true), p.force)
+		if len(res.Violations) > 0 {
+			res.Sample = map[string]any{"case": what, "fault": f.descr, "disk_calls": out.calls, "tree": out.v != nil, "error": errStr(out.err)}
+			return res
+		}
 	}
-	if out.v != nil && p.force && out.err == nil && planKind == 0 && fault != "" {
-		res.Probes["forced_decode_returned_tree"]++
-	}
-	if planKind == 4 && errors.Is(out.err, context.Canceled) {
-		res.Probes["cancel_observed"]++
-	}
-	checkOutcome(res, out, data, what+", "+fault, planKind == 1 || planKind == 2 || planKind == 3, condOf(p, s, true), p.force)
+	res.Sample = map[string]any{"case": what, "fault_family": family, "faults": len(faults)}
 	return res
 }
 
@@ -381,6 +460,11 @@ func errStr(err error) string {
 		return ""
 	}
 	return firstN(err.Error(), 160)
+}
+
+func isCompoundV(v *decode.Value) bool {
+	_, ok := v.V.(*decode.Compound)
+	return ok
 }
 
 func isSynthetic(v *decode.Value) bool {
@@ -512,6 +596,8 @@ func checkOutcome(res *core.RunResult, out *decOutcome, data []byte, what string
 					return nil
 				})
 				switch {
+				case !leafOutside && !isCompoundV(v) && v.Range.Len == 0:
+					res.Violate("C03", "range-outside-buffer", "zero-length-field-past-end:"+cond, what+fmt.Sprintf(": field %s has the empty range %d..%d outside its buffer of %d bits", valuePath(v), r.Start, r.Start+r.Len, l))
 				case !leafOutside:
 					res.Violate("C03", "range-outside-buffer", "zero-length-value-past-end:"+cond, what+fmt.Sprintf(": %s has range %d..%d outside its buffer of %d bits (only zero-length values lie past the end)", valuePath(v), r.Start, r.Start+r.Len, l))
 				case forced:
